@@ -229,6 +229,7 @@ def parseStmt : Sexp → Option Stmt
   | .list [.atom "asg", n, e] => do pure (.assign (← asName? n) (← parseExpr e))
   | .list [.atom "sel", n, k, t] => do pure (.selset (← asName? n) (← asName? k) (← parseT t))
   | .list [.atom "fail"] => some .fail
+  | .list [.atom "hid", k] => k.asNat?.map .hidden
   | _ => none
 
 def parseOp : Sexp → Option Op
